@@ -24,18 +24,18 @@ use worterbuch::server::CloneableWbApi;
 use worterbuch::{Args, Config, Endpoint, spawn_worterbuch};
 use worterbuch_common::{Protocol, WbApi, error::WorterbuchError};
 
-struct Node {
-    api: CloneableWbApi,
-    subsys: SubsystemHandle,
-    done: tokio::task::JoinHandle<bool>,
-    dir: PathBuf,
+pub struct Node {
+    pub api: CloneableWbApi,
+    pub subsys: SubsystemHandle,
+    pub done: tokio::task::JoinHandle<bool>,
+    pub dir: PathBuf,
 }
 
 fn free_port() -> u16 {
     std::net::TcpListener::bind("127.0.0.1:0").and_then(|l| l.local_addr()).map(|a| a.port()).unwrap_or(0)
 }
 
-async fn start(cfg: Config, dir: PathBuf) -> Option<Node> {
+pub async fn start(cfg: Config, dir: PathBuf) -> Option<Node> {
     let (api_tx, api_rx) = oneshot::channel();
     let done = tokio::spawn(async move {
         tosub::build_root("wbverif")
@@ -53,7 +53,7 @@ async fn start(cfg: Config, dir: PathBuf) -> Option<Node> {
     Some(Node { api, subsys, done, dir })
 }
 
-async fn stop(n: Node) {
+pub async fn stop(n: Node) {
     n.subsys.request_global_shutdown();
     let _ = tokio::time::timeout(Duration::from_secs(20), n.done).await;
 }
@@ -76,7 +76,7 @@ fn err(e: &WorterbuchError) -> Value {
     json!({"t": "err", "code": crate::core_drv::err_code(e)})
 }
 
-async fn probe(api: &CloneableWbApi, names: &Names) -> Value {
+pub async fn probe(api: &CloneableWbApi, names: &Names) -> Value {
     let mut flat = vec![];
     let mut regs = vec![];
     if let Ok(kvs) = api.pget("#".to_owned()).await {
@@ -165,42 +165,7 @@ pub fn main_run(args: &[String]) -> i32 {
             match op.as_str() {
                 "req" => {
                     let q = &r["r"];
-                    let c = s(q, "c");
-                    let rep = match s(q, "op").as_str() {
-                        "set" => {
-                            let (k, v, id) = (names.key_in(&q["key"]), names.val_in(&s(q, "val")), names.id(&c));
-                            l.api.set(k, v, id).await.map(|_| json!({"t": "ok"})).unwrap_or_else(|e| err(&e))
-                        }
-                        "cset" => {
-                            let (k, v, id) = (names.key_in(&q["key"]), names.val_in(&s(q, "val")), names.id(&c));
-                            l.api.cset(k, v, u(q, "ver"), id).await.map(|_| json!({"t": "ok"})).unwrap_or_else(|e| err(&e))
-                        }
-                        "delete" => {
-                            let (k, id) = (names.key_in(&q["key"]), names.id(&c));
-                            l.api.delete(k, id).await.map(|v| json!({"t": "val", "v": names.val_out(&v)})).unwrap_or_else(|e| err(&e))
-                        }
-                        "pdelete" => {
-                            let (p, id) = (names.key_in(&q["pat"]), names.id(&c));
-                            match l.api.pdelete(p, id).await {
-                                Ok(kvs) => json!({"t": "kvs", "kvs": kvs.iter().map(|kv| json!([names.key_out(&kv.key), names.val_out(&kv.value)])).collect::<Vec<_>>()}),
-                                Err(e) => err(&e),
-                            }
-                        }
-                        "connect" => {
-                            let id = names.fresh(&c);
-                            l.api.connected(id, None, Protocol::TCP).await.map(|_| json!({"t": "ok"})).unwrap_or_else(|e| err(&e))
-                        }
-                        "disconnect" => {
-                            let id = names.id(&c);
-                            l.api.disconnected(id, None).await.map(|_| json!({"t": "ok"})).unwrap_or_else(|e| err(&e))
-                        }
-                        "import" => {
-                            let mut core = ImportBuilder { names: &mut names };
-                            let js = core.json(&q["tree"]);
-                            l.api.import(js).await.map(|_| json!({"t": "ok"})).unwrap_or_else(|e| err(&e))
-                        }
-                        _ => json!({"t": "unknown"}),
-                    };
+                    let rep = exec_api(&l.api, &mut names, q).await;
                     writeln!(out, "{}", json!({"op": "req", "r": q, "rep": rep})).ok();
                 }
                 "join" => {
@@ -282,6 +247,56 @@ pub fn main_run(args: &[String]) -> i32 {
         out.flush().ok();
     });
     0
+}
+
+
+/// one request of the core alphabet through a `WbApi` handle
+pub async fn exec_api(api: &CloneableWbApi, names: &mut Names, q: &Value) -> Value {
+    let c = s(q, "c");
+    match s(q, "op").as_str() {
+                        "set" => {
+                            let (k, v, id) = (names.key_in(&q["key"]), names.val_in(&s(q, "val")), names.id(&c));
+                            api.set(k, v, id).await.map(|_| json!({"t": "ok"})).unwrap_or_else(|e| err(&e))
+                        }
+                        "cset" => {
+                            let (k, v, id) = (names.key_in(&q["key"]), names.val_in(&s(q, "val")), names.id(&c));
+                            api.cset(k, v, u(q, "ver"), id).await.map(|_| json!({"t": "ok"})).unwrap_or_else(|e| err(&e))
+                        }
+                        "delete" => {
+                            let (k, id) = (names.key_in(&q["key"]), names.id(&c));
+                            api.delete(k, id).await.map(|v| json!({"t": "val", "v": names.val_out(&v)})).unwrap_or_else(|e| err(&e))
+                        }
+                        "pdelete" => {
+                            let (p, id) = (names.key_in(&q["pat"]), names.id(&c));
+                            match api.pdelete(p, id).await {
+                                // server-maintained information under $SYS (version, uptime, ...) is environment, not behaviour
+                Ok(kvs) => json!({"t": "kvs", "kvs": kvs.iter()
+                    .filter(|kv| !(kv.key.starts_with("$SYS/") && !kv.key.starts_with("$SYS/clients")))
+                    .map(|kv| json!([names.key_out(&kv.key), names.val_out(&kv.value)])).collect::<Vec<_>>()}),
+                                Err(e) => err(&e),
+                            }
+                        }
+                        "connect" => {
+                            let id = names.fresh(&c);
+                            let proto = match s(q, "proto").as_str() {
+                "WS" => Protocol::WS,
+                "HTTP" => Protocol::HTTP,
+                "UNIX" => Protocol::UNIX,
+                _ => Protocol::TCP,
+            };
+            api.connected(id, None, proto).await.map(|_| json!({"t": "ok"})).unwrap_or_else(|e| err(&e))
+                        }
+                        "disconnect" => {
+                            let id = names.id(&c);
+                            api.disconnected(id, None).await.map(|_| json!({"t": "ok"})).unwrap_or_else(|e| err(&e))
+                        }
+                        "import" => {
+                            let mut core = ImportBuilder { names };
+                            let js = core.json(&q["tree"]);
+                            api.import(js).await.map(|_| json!({"t": "ok"})).unwrap_or_else(|e| err(&e))
+                        }
+                        _ => json!({"t": "unknown"}),
+                    }
 }
 
 struct ImportBuilder<'a> {
